@@ -126,7 +126,7 @@ _STATS = re.compile(r"(\d+) states generated, (\d+) distinct states found")
 TLA_CP = "/opt/veriftools/tla/tla2tools.jar:/opt/veriftools/tla/CommunityModules-deps.jar"
 
 
-def tlc(module, cfg, env=None, workers=8, timeout=900, simulate=None, deque=False, heap=None, coverage=True):
+def tlc(module, cfg, env=None, workers=8, timeout=900, simulate=None, deque=False, heap=None, coverage=True, extra=None):
     """Run TLC on spec/<module>.tla with spec/<cfg>. Returns dict(out, generated, distinct, rc, wall)."""
     ensure_dirs()
     meta = os.path.join(CACHE, "tlc", "meta-%s-%d" % (module, os.getpid()))
@@ -142,7 +142,7 @@ def tlc(module, cfg, env=None, workers=8, timeout=900, simulate=None, deque=Fals
         cmd += ["-coverage", "1"]
     if simulate:
         cmd += ["-simulate", simulate]
-    cmd += ["-config", cfg, module + ".tla"]
+    cmd += (extra or []) + ["-config", cfg, module + ".tla"]
     e = dict(env or {})
     e["JAVA_TOOL_OPTIONS"] = "-Xss1g"
     try:
